@@ -1,6 +1,7 @@
 //! Threshold programs: sizes chosen around the fixed capacities and fast paths an implementation of
 //! this kind has or may grow (inline vectors of 8, ring buffers that wrap, hash tables that rehash
-//! at 4/8/16 entries, 16-entry power tables, 8 KiB read buffers, u8/u16 counters). Each program is
+//! at 4/8/16 entries, 16-entry power tables, 8 KiB read buffers, u8/u16 counters: 255..257 and 1024
+//! elements / characters / keys / variables, 65 535..70 000 iterations / calls / elements). Each program is
 //! judged by the reference interpreter like any other.
 pub const SIZES: &[usize] = &[1, 2, 7, 8, 9, 10, 15, 16, 17, 31, 32, 33, 64, 65];
 
@@ -66,6 +67,32 @@ pub fn programs() -> Vec<String> {
         // build / knock by n
         v.push(format!("put 0 into x\nbuild x {}\nsay x\nknock x {}\nsay x\nput true into b\nbuild b {}\nsay b\n", vec!["up"; n].join(", "), vec!["down"; n].join(" "), vec!["up"; n].join(" ")));
     }
+    // sizes beyond one and two bytes: elements, characters, keys, variables, iterations, calls
+    for n in [255usize, 256, 257, 1024] {
+        v.push(format!("rock w with {}\nsay w\nsay w at 0\nsay w at {}\nsay w at {}\nsay w at {}\nput 0 into t\nwhile w\nlet t be with roll w\n\nsay t\nsay w\n", list(n, |i| (i + 1).to_string()), n - 1, n, n / 2));
+        let s: String = (0..n).map(|i| ["a", "b", "é", "😀"][i % 4]).collect();
+        v.push(format!("put \"{}\" into x\nsay x at 0\nsay x at {}\nsay x at {}\ncut x into y\nsay y\nsay y at {}\njoin y into z\nsay z is x\n", s, n - 1, n, n - 1));
+        let mut p = String::new();
+        for i in 0..n {
+            p.push_str(&format!("let w at \"key{}\" be {}\n", i, i));
+        }
+        p.push_str(&format!("say w\nsay w at \"key0\"\nsay w at \"key{}\"\nsay w at \"key{}\"\n", n - 1, n));
+        v.push(p);
+        let mut p = String::new();
+        for i in 0..n {
+            p.push_str(&format!("put {} into va{}\n", i, (0..3).map(|k| (b'a' + ((i / 26usize.pow(k)) % 26) as u8) as char).collect::<String>()));
+        }
+        p.push_str("say vaaaa\nsay vabaa\nsay vazaa\n");
+        v.push(p);
+        v.push(format!("put 0 into x\nbuild x {}\nsay x\n", vec!["up"; n].join(", ")));
+    }
+    for n in [255usize, 256, 257, 65535, 65536, 65537, 70000] {
+        v.push(format!("put 0 into c\nwhile c is less than {}\nbuild c up\n\nsay c\n", n));
+        v.push(format!("put 0 into c\nput 0 into t\nuntil c is {}\nbuild c up\nif c is {}\nlet t be with 1\n\n\nsay c\nsay t\n", n, n));
+        v.push(format!("inc takes k\ngive back k plus 1\n\nput 0 into c\nwhile c is less than {}\nput inc taking c into c\n\nsay c\n", n));
+        v.push(format!("rock w\nput 0 into c\nwhile c is less than {}\nbuild c up\nrock w with c\n\nsay w\nsay w at 0\nsay w at {}\nroll w\nsay w\n", n, n - 1));
+    }
+    v.push("put \"ab\" into x\nput 0 into c\nwhile c is less than 15\nbuild c up\nlet x be with x\n\nsay x at 65535\nsay x at 65536\nsay x at 65537\ncut x into y\nsay y\n".to_string());
     // numbers around printing and table thresholds
     for lit in ["1e15", "1e16", "1e17", "1e21", "1e22", "123456789012345678", "9007199254740993", "4294967296", "2147483648", "65536", "256", "0.1", "0.000001", "0.0000001", "1e300"] {
         v.push(format!("put {} into x\nsay x\nsay x plus 1\nsay x times x\nsay 1 over x\nsay x is x plus 1\nsay -x\nput \"\" plus x into y\nsay y\n", lit));
